@@ -48,6 +48,9 @@ def tasks_exhaustive(ctx):
             t.append((H.Opts(sp, loop="real", fail=99, vis=vis), 0, 2))
             if ctx.thorough or vis == (0,):
                 t.append((H.Opts(sp, loop="mirror", fail=99, vis=vis), 0, 2))
+    # two interleaved chains of three: every order, at most one failing job (thorough: any failing subset)
+    for vis in ((0,), (INF,)):
+        t.append((H.Opts("chain3+chain3", loop="real", fail=99 if ctx.thorough else 1, vis=vis), 0, 3))
     if ctx.thorough:
         for sp in SMALL:
             t.append((H.Opts(sp, loop="real", fail=99, vis=(0, INF), multi=True), 0, 2))
@@ -119,7 +122,8 @@ def run(ctx):
                 f"under the real expand_workflow_async (scripted worker), and under the harness' mirror of the loop "
                 + ("with the same per-job visibility" if ctx.thorough else "with visibility all-seen / none-seen")
                 + f"; the same with has_errored/all_failed/done read on every node after every observation for {SMALL if ctx.thorough else PROBED}; "
-                f"workflows {MEDIUM if ctx.thorough else MEDIUM_QUICK} (4-6 jobs): every order x every failing subset with lock visibility all-seen / none-seen"
+                f"workflows {MEDIUM if ctx.thorough else MEDIUM_QUICK} (4-6 jobs): every order x every failing subset with lock visibility all-seen / none-seen; "
+                f"chain3+chain3 (two independent chains of three, interleaved in the sorted order): every order x " + ("every failing subset" if ctx.thorough else "<= 1 failing job") + " with visibility all-seen / none-seen"
                 + (
                     f"; real loop with several completions between two observations for {SMALL} and with visibility delay in {{0, 1, never}} for {DELAY1}; per-job visibility for {MEDIUM_QUICK}; {LARGE_EXH} with <= 1 failing job and visibility all-seen / none-seen"
                     if ctx.thorough
